@@ -282,7 +282,7 @@ var c04IndexTable = map[string]string{
 	"internal/simplecue.generator.stringOrIntegerFromEnum conjuncts[0] #3":                            "appendSplit returns at least the value itself, and the function leaves when len(conjuncts) == 1: two or more conjuncts",
 	"internal/simplecue.generator.stringOrIntegerFromEnum conjuncts[0] #4":                            "appendSplit returns at least the value itself, and the function leaves when len(conjuncts) == 1: two or more conjuncts",
 	"internal/simplecue.generator.stringOrIntegerFromEnum conjuncts[0] #5":                            "appendSplit returns at least the value itself, and the function leaves when len(conjuncts) == 1: two or more conjuncts",
-	"internal/ast.BuilderGenerator.structObjectToBuilder option.Assignments[0]":                       "option is what structFieldToOption returned one statement earlier: an Option literal whose Assignments is the one-element literal []Assignment{FieldAssignment(field)}",
+	"internal/ast.BuilderGenerator.constrainedFieldToOption option.Assignments[0]":                    "option is what structFieldToOption returned one statement earlier: an Option literal whose Assignments is the one-element literal []Assignment{FieldAssignment(field)}",
 	"internal/veneers/option.StructFieldsAsOptionsAction newOpt.Assignments[0]":                       "newOpt is built by structFieldToOption-like code just above with exactly one assignment",
 	"internal/veneers/option.StructFieldsAsOptionsAction newOpt.Assignments[0] #2":                    "newOpt is built by structFieldToOption-like code just above with exactly one assignment",
 	"internal/veneers/builder.composeBuilderForType composableBuilders[0]":                            "the lists of composableBuilders are built by appending builders per panel type: never empty",
